@@ -18,7 +18,8 @@ func formatObjectName(name string) string {
 }
 
 func formatIdentifier(name string) string {
-	return tools.LowerCamelCase(escapeIdentifier(name))
+	// reserved words are looked for in the name as it will be written too: `Class` is written `class`
+	return escapeIdentifier(tools.LowerCamelCase(escapeIdentifier(name)))
 }
 
 func formatEnumMemberName(name string) string {
